@@ -120,9 +120,7 @@ contract(SHS + "._add_in_instance", params={"r_constraint_node": RNode, "stateme
 contract(SHS + "._add_instantiation_constraint", params={"statement": Statement, "r_shape_uri": RNode},
     requires=["has_class(statement, 'Statement')", "%s.startswith('http://') or %s.startswith('https://')" % (T_, T_), HTTP],
     emits=["(r_shape_uri, %s, bn(0))" % sh("property"), "(bn(0), %s, %s)" % (RTYPE, sh("PropertyShape")),
-           "(bn(0), %s, %s)" % (sh("path"), PURI),
-           "(bn(0), %s, typed_lit(1, ext_const('rdflib.XSD.integer')))" % sh("minCount"),
-           "(bn(0), %s, typed_lit(1, ext_const('rdflib.XSD.integer')))" % sh("maxCount"),
+           "(bn(0), %s, %s)" % (sh("path"), PURI)] + CARD_EMITS + [      # min/max from the statement's cardinality, like any other constraint
            "(bn(0), %s, bn(1))" % sh("in"), "(bn(1), ext_const('rdflib.RDF.first'), uriref(%s))" % T_,
            "(bn(1), ext_const('rdflib.RDF.rest'), ext_const('rdflib.RDF.nil'))"], bnodes="2", **P)
 contract(SHS + "._add_shape_uri", params={"r_shape_uri": RNode}, emits=["(r_shape_uri, %s, %s)" % (RTYPE, sh("NodeShape"))], **P)
